@@ -17,7 +17,7 @@ lane() {
     git -C $WT reset -q
     checks="$prop"; [ -f $d/also_checks ] && checks="$prop $(cat $d/also_checks)"
     for c in $checks; do
-      out=$(cd /verif && VERIF_REPO=$WT VERIF_ROOT_OVERRIDE=$ROOT ./check.sh $c $TIER 2>&1); rc=$?
+      out=$(cd /verif && VERIF_BUDGET_S=${MATRIX_BUDGET_S:-400} VERIF_REPO=$WT VERIF_ROOT_OVERRIDE=$ROOT ./check.sh $c $TIER 2>&1); rc=$?
       sig=$(echo "$out" | grep -m1 "signature:" | sed 's/^ *signature: //' | cut -c1-110)
       case $rc in 0) res="not detected";; 1) res="DETECTED";; *) res="INFRA rc=$rc";; esac
       echo "| $s | $(basename $p) | $c $TIER | $res | $sig |" >> $TMP/out$L
